@@ -538,6 +538,19 @@ func runKindCodec(c *core.Ctx) {
 		if e.from == e.to && strings.Contains(e.from, "Number).Int64") {
 			okNum = true
 		}
+		// the number read by a private helper (`parseKindNumber(v)`): accepted when the helper turns every
+		// integer the encoder can write into the same int and refuses nothing else than a non-number
+		if e.from == e.to && strings.HasPrefix(e.from, "call:") && strings.HasSuffix(e.from, "#0") {
+			an.Instrs(dec, func(in ssa.Instruction) {
+				if s, ok := in.(*ssa.Store); ok && s.Block() == b {
+					if ex, ok := s.Val.(*ssa.Extract); ok && ex.Index == 0 {
+						if call, ok := ex.Tuple.(*ssa.Call); ok && faithfulNumberHelper(an.StaticCallee(&call.Call)) {
+							okNum = true
+						}
+					}
+				}
+			})
+		}
 		if e.from != e.to && strings.Contains(e.from, "[0]") && strings.Contains(e.to, "[1]") {
 			// guarded by len(v) == 2
 			for _, g := range an.Guards(dec, b) {
@@ -747,4 +760,80 @@ func kindDecodePaths(dec *ssa.Function) (number, array, bad bool) {
 		}
 	}
 	return
+}
+
+// faithfulNumberHelper: g(v any) (int, error) returns, for a json.Number, exactly the integer it
+// spells — `n.Int64()` or `strconv.ParseInt(n.String(), 10, 64)` converted to int — and reports an
+// error only when v is not a number or the parse failed; no further range is imposed (the encoder
+// writes whatever the configuration holds, so a narrower reader cannot read back every document).
+func faithfulNumberHelper(g *ssa.Function) bool {
+	if !an.PrivateHelper(g) || g.Signature.Results().Len() != 2 || len(g.Blocks) == 0 {
+		return false
+	}
+	var parse *ssa.Call
+	an.Instrs(g, func(in ssa.Instruction) {
+		call, ok := in.(*ssa.Call)
+		if !ok {
+			return
+		}
+		switch an.CalleeName(&call.Call) {
+		case "strconv.ParseInt":
+			base, ok1 := an.ConstInt(call.Call.Args[1])
+			bits, ok2 := an.ConstInt(call.Call.Args[2])
+			if ok1 && ok2 && base == 10 && (bits == 64 || bits == 0) && strings.Contains(an.PathOf(call.Call.Args[0]), "Number).String(") {
+				parse = call
+			}
+		case "(encoding/json.Number).Int64":
+			parse = call
+		}
+	})
+	if parse == nil {
+		return false
+	}
+	nOK := 0
+	for _, rb := range an.ReturnBlocks(g) {
+		ret := an.LastInstr(rb).(*ssa.Return)
+		paths, ok := an.PathsTo(g, rb, 256)
+		if !ok {
+			return false
+		}
+		for _, p := range paths {
+			if !an.Feasible(p) {
+				continue
+			}
+			rvs := an.ReturnValues(ret)
+			if an.IsNilConst(resolveRet(rvs[1], p)) {
+				// success: the parsed value, converted
+				v := resolveRet(rvs[0], p)
+				if cv, ok := v.(*ssa.Convert); ok {
+					v = cv.X
+				}
+				ex, ok := v.(*ssa.Extract)
+				if !ok || ex.Tuple != ssa.Value(parse) || ex.Index != 0 {
+					return false
+				}
+				nOK++
+				continue
+			}
+			// failure: not a number, or the parse failed
+			why := false
+			for _, cd := range p.Conds() {
+				cd = an.NormCond(cd)
+				if ex, ok := cd.V.(*ssa.Extract); ok && ex.Index == 1 && !cd.True {
+					if _, isTA := ex.Tuple.(*ssa.TypeAssert); isTA {
+						why = true
+					}
+				}
+				if b, ok := cd.V.(*ssa.BinOp); ok && an.IsNilConst(b.Y) && (b.Op == token.NEQ) == cd.True {
+					if ex, ok := b.X.(*ssa.Extract); ok && ex.Tuple == ssa.Value(parse) && ex.Index == 1 {
+						why = true
+					}
+				}
+			}
+			if !why {
+				return false
+			}
+		}
+	}
+	return nOK > 0
 }
